@@ -421,6 +421,15 @@ def saturate(guard):
                     if l not in g:
                         g.add(l)
                         changed = True
+            else:
+                # what every remaining alternative establishes holds: (A and X) or (B and X) |- X
+                shared = set(open_[0])
+                for o in open_[1:]:
+                    shared &= set(o)
+                for l in shared:
+                    if l not in g:
+                        g.add(l)
+                        changed = True
     return g
 
 
